@@ -54,7 +54,7 @@ fn campaigns(tier: Tier) -> Vec<Campaign> {
     v
 }
 
-fn must_may(tree: &Tree, t: &Table, must_b: &mut BTreeSet<String>, must_u: &mut BTreeSet<String>, may_b: &mut BTreeSet<String>, may_u: &mut BTreeSet<String>) {
+pub fn must_may(tree: &Tree, t: &Table, must_b: &mut BTreeSet<String>, must_u: &mut BTreeSet<String>, may_b: &mut BTreeSet<String>, may_u: &mut BTreeSet<String>) {
     match tree {
         Tree::Un(k, a) => {
             let n = t.ops[*k as usize].name.to_string();
@@ -84,7 +84,7 @@ fn has_constant_subexpr_with_op(tree: &Tree) -> bool {
     }
 }
 
-fn listing_ok(name: &str, l: &[String], must: &BTreeSet<String>, may: &BTreeSet<String>) -> Result<(), String> {
+pub fn listing_ok(name: &str, l: &[String], must: &BTreeSet<String>, may: &BTreeSet<String>) -> Result<(), String> {
     for w in l.windows(2) {
         if w[0] >= w[1] {
             return Err(format!("{name} not sorted/duplicate-free: {l:?}"));
